@@ -11,7 +11,9 @@ Open Scope N_scope.
     batch counts, exits in any order and clock advances of any size: each build is admitted
     exactly when, for every rule of its resource, the tokens admitted so far whose bucket lies
     in that rule's current window plus the batch do not exceed the threshold; a rejection is a
-    Flow block naming a rule that does not fit, with that rule's window count. *)
+    Flow block naming a rule that does not fit, with that rule's window count.  Stated for the flow family on
+    its own (no isolation rules, histories of builds / exits / clock advances only: [no_extra]); the start-time
+    requirement of a rule with a private ring is part of [flow_ok]. *)
 Theorem C01_admit_iff_fits : forall c base rules ops,
   geom_ok c -> iv (c_total c) <= base -> flow_ok c base rules -> forallb no_extra ops = true ->
   ok_c01 c rules base ops (run_typed (world0 c base rules (fun _ => [])) ops) = true.
